@@ -1,6 +1,8 @@
 package main
 
 import (
+	"bufio"
+	"io"
 	"fmt"
 	"runtime"
 	"sort"
@@ -266,6 +268,8 @@ func domUpd(r *gen.Rng, n int, thorough bool, o *Out) {
 			panic(err)
 		}
 		st := &updState{live: live, managers: fieldpath.ManagedFields{}, conv: conv, rng: cr}
+		failuresBefore := len(o.Failures)
+		var rec []updStep
 		degrade := cr.Chance(12) // some histories lose or break a version mid-way
 		steps := 2 + cr.Intn(7)
 		if thorough {
@@ -295,6 +299,7 @@ func domUpd(r *gen.Rng, n int, thorough bool, o *Out) {
 				}
 				o.Emit("upd.conv "+conv.enc(), func() string { return "ok" })
 				o.Tag("upd:converter-degraded")
+				rec = append(rec, updStep{kind: "conv", missing: copyVers(conv.missing), failing: copyVers(conv.failing)})
 			}
 			ver := versionLabels[cr.Intn(nv)]
 			for tries := 0; conv.missing[ver] && tries < 8; tries++ {
@@ -323,6 +328,7 @@ func domUpd(r *gen.Rng, n int, thorough bool, o *Out) {
 				if !vopts.Plain && cr.Chance(25) {
 					cfg = swapEntryForNull(cr, cfg)
 				}
+				rec = append(rec, updStep{kind: "apply", mgr: mgr, ver: ver, force: force, obj: cfg, plain: vopts.Plain})
 				res := stepApply(o, c, up, ig, st, tr, mgr, ver, force, cfg, vopts.Plain, noop)
 				if strings.HasPrefix(res, "ok") {
 					emitSync(o, st)
@@ -334,12 +340,16 @@ func domUpd(r *gen.Rng, n int, thorough bool, o *Out) {
 			} else {
 				mgr := gen.Pick(cr, updaters)
 				obj := genUpdateObject(cr, c, st, rootRef, tr, pool)
+				rec = append(rec, updStep{kind: "update", mgr: mgr, ver: ver, obj: obj})
 				res := stepUpdate(o, c, up, ig, st, tr, mgr, ver, obj)
 				if strings.HasPrefix(res, "ok") {
 					emitSync(o, st)
 				}
 				transcript += "U" + mgr + res[:1]
 			}
+		}
+		if len(o.Failures) > failuresBefore && failuresBefore < 12 {
+			minimizeHistory(o, failuresBefore, c, ig, noop, tr, rec)
 		}
 		o.Cases++
 		o.Tag(fmt.Sprintf("upd:steps=%d", steps))
@@ -348,6 +358,125 @@ func domUpd(r *gen.Rng, n int, thorough bool, o *Out) {
 			o.Nontrivial(fmt.Sprintf("%d:%s", h, transcript))
 		}
 	}
+}
+
+// updStep: one recorded step of a history (concrete arguments), for re-execution.
+type updStep struct {
+	kind             string // apply | update | conv
+	mgr              string
+	ver              fieldpath.APIVersion
+	force, plain     bool
+	obj              interface{}
+	missing, failing map[fieldpath.APIVersion]bool
+}
+
+func copyVers(m map[fieldpath.APIVersion]bool) map[fieldpath.APIVersion]bool {
+	out := map[fieldpath.APIVersion]bool{}
+	for k, v := range m {
+		out[k] = v
+	}
+	return out
+}
+
+// runSteps re-executes recorded steps from the empty object on a scratch output (judges included) and
+// returns the scratch output and, per executed step, the number of failures recorded so far.
+func runSteps(c *typCtx, ig ignoreCfg, noop bool, tr schema.TypeRef, steps []updStep, seed uint64) (*Out, []int) {
+	so := &Out{domain: "upd", ops: bufio.NewWriter(io.Discard), impl: bufio.NewWriter(io.Discard),
+		Dist: map[string]int{}, Distinct: map[string]struct{}{}}
+	so.schemaLine = "(schema as above)"
+	conv := sameVersionConverter{missing: map[fieldpath.APIVersion]bool{}, failing: map[fieldpath.APIVersion]bool{}}
+	up := ig.updaterWith(noop, conv)
+	so.Emit("upd.reset "+vx.TypeRef(tr)+" "+ig.enc+" "+vx.Flag(noop), func() string { return "ok" })
+	live, err := typed.AsTyped(value.NewValueInterface(nil), c.sc, tr)
+	if err != nil {
+		return so, nil
+	}
+	st := &updState{live: live, managers: fieldpath.ManagedFields{}, conv: conv, rng: gen.New(seed)}
+	var counts []int
+	for _, s := range steps {
+		switch s.kind {
+		case "conv":
+			for k := range conv.missing {
+				delete(conv.missing, k)
+			}
+			for k, v := range s.missing {
+				conv.missing[k] = v
+			}
+			for k := range conv.failing {
+				delete(conv.failing, k)
+			}
+			for k, v := range s.failing {
+				conv.failing[k] = v
+			}
+			so.Emit("upd.conv "+conv.enc(), func() string { return "ok" })
+		case "apply":
+			if conv.missing[s.ver] {
+				break
+			}
+			if res := stepApply(so, c, up, ig, st, tr, s.mgr, s.ver, s.force, s.obj, s.plain, noop); strings.HasPrefix(res, "ok") {
+				emitSync(so, st)
+			}
+		case "update":
+			if conv.missing[s.ver] {
+				break
+			}
+			if res := stepUpdate(so, c, up, ig, st, tr, s.mgr, s.ver, s.obj); strings.HasPrefix(res, "ok") {
+				emitSync(so, st)
+			}
+		}
+		counts = append(counts, len(so.Failures))
+	}
+	return so, counts
+}
+
+// minimizeHistory: for the first failure of this history, drop steps greedily while the same clause of
+// the same property still fails on re-execution from the empty object, cut after the step at which it
+// fails, and attach the shorter history to the failures of this history with that clause.
+func minimizeHistory(o *Out, from int, c *typCtx, ig ignoreCfg, noop bool, tr schema.TypeRef, rec []updStep) {
+	defer func() { recover() }()
+	target := o.Failures[from]
+	fails := func(steps []updStep) (bool, *Out, int) {
+		so, counts := runSteps(c, ig, noop, tr, steps, 12345)
+		for i, f := range so.Failures {
+			if f.Property == target.Property && f.Clause == target.Clause {
+				// the step at which it was recorded
+				at := len(steps) - 1
+				for k, n := range counts {
+					if n > i {
+						at = k
+						break
+					}
+				}
+				return true, so, at
+			}
+		}
+		return false, so, 0
+	}
+	cur := append([]updStep{}, rec...)
+	ok, _, at := fails(cur)
+	if !ok {
+		return // not reproducible from the recorded steps alone (e.g. depends on the judge's random choices)
+	}
+	cur = cur[:at+1]
+	for changed := true; changed; {
+		changed = false
+		for i := len(cur) - 2; i >= 0; i-- {
+			cand := append(append([]updStep{}, cur[:i]...), cur[i+1:]...)
+			if ok, _, at := fails(cand); ok {
+				cur = cand[:at+1]
+				changed = true
+				break
+			}
+		}
+	}
+	_, so, _ := fails(cur)
+	min := append([]string{o.schemaLine}, so.history...)
+	for i := from; i < len(o.Failures); i++ {
+		if o.Failures[i].Property == target.Property && o.Failures[i].Clause == target.Clause {
+			o.Failures[i].Minimized = min
+		}
+	}
+	o.Tag(fmt.Sprintf("upd:minimized %d->%d steps", len(rec), len(cur)))
 }
 
 // dropSome removes some entries of a configuration (the applier stops applying them).
